@@ -1410,3 +1410,148 @@ def r_no_generator_around_callback(ctx, repo):
                       inp='a constructor registered with add_constructor that raises StopIteration, used below a sequence / mapping')
     rule.require_min(8, 'generator frames')
     return rule
+
+
+# --------------------------------------------------------------------------------------------- R-PLAIN-START-CONSUMED
+def r_plain_start_consumed(ctx, repo):
+    """sibling agreement inside the scanner: whenever check_plain() says "a plain scalar starts here", scan_plain() consumes at
+    least the first character.  Otherwise fetch_plain appends an empty token without moving and the scanner never ends."""
+    rule = ctx.rule('R-PLAIN-START-CONSUMED', 'for every (current character, next character, flow/block context) for which check_plain '
+                                              'accepts, the first iteration of scan_plain\'s character loop does not stop at length 0 '
+                                              '(the scalar consumes input): no empty plain token can be produced without progress')
+    cp = _method(repo, 'scanner.Scanner', 'check_plain')
+    sp = _method(repo, 'scanner.Scanner', 'scan_plain')
+    rets = [n for n in walk_function(cp.node) if isinstance(n, ast.Return) and n.value is not None]
+    if len(rets) != 1:
+        raise AnalysisError('check_plain: expected a single returned condition')
+    cp_locals = {}
+    for n in walk_function(cp.node):
+        if isinstance(n, ast.Assign) and len(n.targets) == 1 and isinstance(n.targets[0], ast.Name):
+            cp_locals[n.targets[0].id] = n.value
+    # the stop test of scan_plain's innermost character loop: an `if <test>: break` whose test reads the loop's character
+    stop = None
+    chv = None
+    for loop in [n for n in walk_function(sp.node) if isinstance(n, ast.While)]:
+        inner = [s for s in loop.body if isinstance(s, ast.While)]
+        if inner:
+            continue
+        for s in loop.body:
+            if isinstance(s, ast.Assign) and isinstance(s.value, ast.Call) and norm(s.value.func).endswith('.peek') \
+                    and isinstance(s.targets[0], ast.Name):
+                chv = s.targets[0].id
+        for s in loop.body:
+            if isinstance(s, ast.If) and any(isinstance(b, ast.Break) for b in s.body) and chv and \
+                    any(isinstance(x, ast.Name) and x.id == chv for x in ast.walk(s.test)):
+                stop = s.test
+        if stop is not None:
+            break
+    if stop is None:
+        raise AnalysisError('scan_plain: the stop test of the character loop was not found')
+
+    def concretise(expr, ch, nxt, flow, locals_):
+        """expr with peek()/peek(0)/peek(length) -> ch, peek(1)/peek(length+1) -> nxt, flow_level -> flow, locals expanded."""
+        class T(ast.NodeTransformer):
+            def visit_Call(self, node):
+                if isinstance(node.func, ast.Attribute) and node.func.attr == 'peek':
+                    if not node.args:
+                        return ast.Constant(ch)
+                    a = node.args[0]
+                    txt = norm(a)
+                    if isinstance(a, ast.Constant):
+                        return ast.Constant(ch if a.value == 0 else nxt if a.value == 1 else '\0')
+                    if isinstance(a, ast.Name):
+                        return ast.Constant(ch)               # peek(length) at length == 0
+                    if isinstance(a, ast.BinOp) and isinstance(a.op, ast.Add) and '1' in txt:
+                        return ast.Constant(nxt)
+                self.generic_visit(node)
+                return node
+
+            def visit_Attribute(self, node):
+                if node.attr == 'flow_level':
+                    return ast.Constant(flow)
+                self.generic_visit(node)
+                return node
+
+            def visit_Name(self, node):
+                if node.id in locals_ and isinstance(node.ctx, ast.Load):
+                    return self.visit(_plain_copy(locals_[node.id]))
+                return node
+        return ast.fix_missing_locations(T().visit(_plain_copy(expr)))
+    probes = sorted(set(CW.representative_chars(repo, 'scanner')))
+    nexts = ['a', ' ', '\n', '\0', ',', ']', '}', ':', '?', '-', '#']
+    bad = []
+    n = 0
+    for flow in (0, 1):
+        for ch in probes:
+            for nxt in nexts:
+                acc = CW.eval_cond(repo, concretise(rets[0].value, ch, nxt, flow, cp_locals), {})
+                if acc is not True:
+                    continue
+                n += 1
+                st = CW.eval_cond(repo, concretise(stop, ch, nxt, flow, {chv: ast.Constant(ch)}), {})
+                if st is not False:
+                    bad.append((ch, nxt, flow))
+    if n < 50:
+        raise AnalysisError('R-PLAIN-START-CONSUMED: only %d accepted combinations evaluated' % n)
+    if bad:
+        ch, nxt, flow = bad[0]
+        rule.fail('%s|no-progress|%s' % (sp.qualname, ''.join(sorted({b[0] for b in bad}))[:8]), sp.module.rel, sp.node.lineno, sp.qualname,
+                  norm(stop)[:80],
+                  'check_plain accepts %r followed by %r in %s context, but scan_plain stops before consuming it: fetch_plain appends '
+                  'an empty scalar token without moving, so the scanner produces tokens for ever (scan / parse / compose hang); '
+                  '%d such combinations' % (ch, nxt, 'flow' if flow else 'block', len(bad)), inp='[%s%s]' % (ch, nxt))
+    else:
+        rule.ok(sp.loc(), 'every start accepted by check_plain is consumed by scan_plain (%d combinations)' % n)
+    return rule
+
+
+# --------------------------------------------------------------------------------------------- R-FOLD-LEADING-SPACE
+def r_fold_leading_space(ctx, repo):
+    """after a fold inside a double-quoted scalar the continuation line must not begin with a bare space (the scanner strips
+    leading white space of continuation lines): the writer protects it with a backslash.  The character to test is the *next
+    unwritten* one - the text at the write cursor - not the character at the scan position."""
+    rule = ctx.rule('R-FOLD-LEADING-SPACE', 'in write_double_quoted the test that protects a space at the beginning of a continuation line '
+                                            'looks at the text at the write cursor (the lower bound of the slices that are written), '
+                                            'i.e. at the first character the continuation line will receive')
+    f = _method(repo, 'emitter.Emitter', 'write_double_quoted')
+    text = f.params[1]
+    # write cursors: names used as lower bound of slices text[S:E] whose value is written
+    cursors = {n.slice.lower.id for n in walk_function(f.node)
+               if isinstance(n, ast.Subscript) and isinstance(n.value, ast.Name) and n.value.id == text
+               and isinstance(n.slice, ast.Slice) and isinstance(n.slice.lower, ast.Name)}
+    if not cursors:
+        raise AnalysisError('write_double_quoted: write cursor not found')
+    # the protection: an `if <x> == ' ':` whose body produces the lone backslash, after a write_indent() in the same block
+    sites = []
+    for n in walk_function(f.node):
+        body = getattr(n, 'body', None)
+        if not isinstance(body, list):
+            continue
+        seen_indent = False
+        for s in body:
+            if isinstance(s, ast.Expr) and isinstance(s.value, ast.Call) and norm(s.value.func).endswith('write_indent'):
+                seen_indent = True
+            if seen_indent and isinstance(s, ast.If) and any(isinstance(x, ast.Constant) and x.value == '\\' for b in s.body for x in ast.walk(b)):
+                sites.append(s)
+    if not sites:
+        raise AnalysisError('write_double_quoted: leading-space protection after the fold not found')
+    for s in sites:
+        ok = False
+        subject = None
+        for c in A.conjuncts(s.test):
+            if isinstance(c, ast.Compare) and len(c.ops) == 1 and isinstance(c.ops[0], ast.Eq):
+                sides = [c.left, c.comparators[0]]
+                if any(isinstance(x, ast.Constant) and x.value == ' ' for x in sides):
+                    subject = [x for x in sides if not isinstance(x, ast.Constant)][0]
+                    if isinstance(subject, ast.Subscript) and isinstance(subject.value, ast.Name) and subject.value.id == text \
+                            and isinstance(subject.slice, ast.Name) and subject.slice.id in cursors:
+                        ok = True
+        if ok:
+            rule.ok(f.loc(s), 'protection tests %s[<write cursor>]' % text)
+        else:
+            rule.fail('%s|fold-space' % f.qualname, f.module.rel, s.lineno, f.qualname, norm(s.test)[:70],
+                      'the leading-space protection after a fold tests %s instead of the text at the write cursor: when the fold follows '
+                      'an escape sequence the scan position is already past the escaped character, so a space that comes next is written '
+                      'bare at the start of the continuation line and the scanner drops it'
+                      % (norm(subject) if subject is not None else 'something else'))
+    return rule
